@@ -115,6 +115,28 @@ class Fwd:
             for a in args:
                 self.stmt(a)
             return
+        if k == "match" and e.get("src") == "for" and e["scrut"].get("args"):
+            # `for x in it { body }`  ==  `it.for_each(|x| body)`: x ranges over the elements of `it` in order
+            src = self.place(e["scrut"]["args"][0])
+            if not src.endswith("[*]"):
+                src += "[*]"
+            body = None
+            for m in walk(e["arms"][0]["body"]):
+                if m["k"] == "match" and m.get("src") == "for":
+                    for arm in m["arms"]:
+                        ap = arm["pat"]
+                        sub = None
+                        if ap["k"] == "tstruct" and ap.get("ps"):
+                            sub = ap["ps"][0]
+                        elif ap["k"] == "struct" and ap["res"].get("path", "").endswith("Option::Some") and ap.get("fields"):
+                            sub = ap["fields"][0]["p"]
+                        if sub is not None:
+                            self.bind_pat(sub, src)
+                            body = arm["body"]
+                    break
+            if body is not None:
+                self.stmt(body)
+                return
         if k == "match":
             base = self.place(e["scrut"])
             self.stmt(e["scrut"])
